@@ -50,7 +50,7 @@ func c02Values() []sb.V {
 		{K: "safe", TS: []string{"html"}, E: []sb.V{{K: "arr", E: []sb.V{num(1), num(2)}}}}, {K: "safe", TS: []string{"js"}, E: []sb.V{{K: "hash", KS: []string{"a"}, E: []sb.V{num(1)}}}},
 		{K: "dag"}, {K: "nilptr:customsafe"}, {K: "nilptr:promoted-stringer"}, {K: "nilptr:promoted-number"}, {K: "nilptr:promoted-boolean"},
 		{K: "embednil:stringer"}, {K: "embednil:iface"}, {K: "embednil:safe"}, {K: "ptr", E: []sb.V{{K: "embednil:number"}}}, {K: "embednil:time"},
-		{K: "dagarr"}, {K: "cyclicarr"},
+		{K: "dagarr"}, {K: "cyclicarr"}, {K: "embednil:deep"},
 	}
 }
 
